@@ -884,6 +884,17 @@ private:
     constant_value m_element_sz;
     // precise array contents if no smashed
     offset_map_t m_offset_map;
+    // Whether every cell of the array that may have been written is
+    // a cell (alive or marked as removed) of m_offset_map or, if
+    // smashed, is described by the summarized variable. It is false
+    // if nothing is known about the array (e.g., an array that has
+    // not been initialized in the current scope or whose state was
+    // lost by a join) or if some write could not be recorded
+    // (symbolic index without smashing, array size limit reached).
+    // Only if true the cells of m_offset_map can be taken for the
+    // whole contents of the array (smashing, reads at symbolic
+    // indexes).
+    bool m_all_cells_known;
 
     static bool consistent_offset(const offset_t &o, size_t elem_size) {
       if (o.is_negative()) {
@@ -911,6 +922,11 @@ private:
 
       std::vector<cell_t> cells = get_offset_map().get_all_cells();
       if (cells.empty()) {
+        return;
+      }
+
+      if (!m_all_cells_known) {
+        // the summarized variable would miss the unknown cells
         return;
       }
 
@@ -990,24 +1006,29 @@ private:
     }
 
   public:
-    array_state() : m_is_smashed(false), m_element_sz((int64_t)0) {}
+    array_state()
+        : m_is_smashed(false), m_element_sz((int64_t)0),
+          m_all_cells_known(false) {}
 
-    array_state(bool &&is_smashed, constant_value &&sz, offset_map_t &&om)
+    array_state(bool &&is_smashed, constant_value &&sz, offset_map_t &&om,
+                bool all_cells_known)
         : m_is_smashed(std::move(is_smashed)), m_element_sz(std::move(sz)),
-          m_offset_map(std::move(om)) {
+          m_offset_map(std::move(om)), m_all_cells_known(all_cells_known) {
       do_sanity_checks();
     }
 
     array_state(const array_state &o)
         : m_is_smashed(o.m_is_smashed), m_element_sz(o.m_element_sz),
-          m_offset_map(o.m_offset_map) {
+          m_offset_map(o.m_offset_map),
+          m_all_cells_known(o.m_all_cells_known) {
       do_sanity_checks();
     }
 
     array_state(const array_state &&o)
         : m_is_smashed(std::move(o.m_is_smashed)),
           m_element_sz(std::move(o.m_element_sz)),
-          m_offset_map(std::move(o.m_offset_map)) {
+          m_offset_map(std::move(o.m_offset_map)),
+          m_all_cells_known(o.m_all_cells_known) {
       do_sanity_checks();
     }
 
@@ -1016,6 +1037,7 @@ private:
         m_is_smashed = o.m_is_smashed;
         m_element_sz = o.m_element_sz;
         m_offset_map = o.m_offset_map;
+        m_all_cells_known = o.m_all_cells_known;
       }
       do_sanity_checks();
       return *this;
@@ -1026,6 +1048,7 @@ private:
         m_is_smashed = std::move(o.m_is_smashed);
         m_element_sz = std::move(o.m_element_sz);
         m_offset_map = std::move(o.m_offset_map);
+        m_all_cells_known = o.m_all_cells_known;
       }
       do_sanity_checks();
       return *this;
@@ -1041,17 +1064,20 @@ private:
         right.smash_array(v, get_element_sz(), cm_right, dom_right);
         return array_state(m_is_smashed | right.m_is_smashed,
                            m_element_sz | right.m_element_sz,
-                           m_offset_map | right.m_offset_map);
+                           m_offset_map | right.m_offset_map,
+                           m_all_cells_known && right.m_all_cells_known);
       } else if (!m_is_smashed && o.m_is_smashed) {
         array_state left(*this);
         left.smash_array(v, o.get_element_sz(), cm_left, dom_left);
         return array_state(left.m_is_smashed | o.m_is_smashed,
                            left.m_element_sz | o.m_element_sz,
-                           left.m_offset_map | o.m_offset_map);
+                           left.m_offset_map | o.m_offset_map,
+                           left.m_all_cells_known && o.m_all_cells_known);
       } else {
         return array_state(m_is_smashed | o.m_is_smashed,
                            m_element_sz | o.m_element_sz,
-                           m_offset_map | o.m_offset_map);
+                           m_offset_map | o.m_offset_map,
+                           m_all_cells_known && o.m_all_cells_known);
       }
     }
 
@@ -1072,7 +1098,8 @@ private:
         }
         return array_state(m_is_smashed & right.m_is_smashed,
                            m_element_sz & right.m_element_sz,
-                           m_offset_map & right.m_offset_map);
+                           m_offset_map & right.m_offset_map,
+                           m_all_cells_known && right.m_all_cells_known);
       } else if (!m_is_smashed && o.m_is_smashed) {
         array_state left(*this);
         left.smash_array(v, o.get_element_sz(), cm_left, dom_left);
@@ -1081,22 +1108,44 @@ private:
         }
         return array_state(left.m_is_smashed & o.m_is_smashed,
                            left.m_element_sz & o.m_element_sz,
-                           left.m_offset_map & o.m_offset_map);
+                           left.m_offset_map & o.m_offset_map,
+                           left.m_all_cells_known && o.m_all_cells_known);
       } else {
         return array_state(m_is_smashed & o.m_is_smashed,
                            m_element_sz & o.m_element_sz,
-                           m_offset_map & o.m_offset_map);
+                           m_offset_map & o.m_offset_map,
+                           m_all_cells_known && o.m_all_cells_known);
       }
     }
 
+    // Used by the patricia tree of array_state_map_t to decide
+    // whether a new binding replaces the old one: it must distinguish
+    // all states that are treated differently.
     bool operator==(const array_state &o) const {
       if (m_is_smashed != o.m_is_smashed) {
+        return false;
+      }
+      if (m_all_cells_known != o.m_all_cells_known) {
         return false;
       }
       if (m_is_smashed) {
         return (m_element_sz == o.m_element_sz);
       } else {
-        return m_offset_map == o.m_offset_map;
+        if (!(m_offset_map == o.m_offset_map)) {
+          return false;
+        }
+        // offset_map_t::operator== ignores the removed marks
+        std::vector<cell_t> cells = m_offset_map.get_all_cells();
+        std::vector<cell_t> o_cells = o.m_offset_map.get_all_cells();
+        if (cells.size() != o_cells.size()) {
+          return false;
+        }
+        for (unsigned k = 0, num_cells = cells.size(); k < num_cells; ++k) {
+          if (cells[k].is_removed() != o_cells[k].is_removed()) {
+            return false;
+          }
+        }
+        return true;
       }
     }
 
@@ -1121,6 +1170,10 @@ private:
     bool is_smashed() const { return m_is_smashed; }
 
     void set_smashed(bool v) { m_is_smashed = v; }
+
+    bool all_cells_known() const { return m_all_cells_known; }
+
+    void set_all_cells_known(bool v) { m_all_cells_known = v; }
 
     offset_map_t &get_offset_map() { return m_offset_map; }
 
@@ -1167,6 +1220,10 @@ private:
     bool can_be_smashed(uint64_t elem_sz) const {
       if (m_is_smashed) {
         // already smashed, bail out ...
+        return false;
+      }
+      if (!m_all_cells_known) {
+        // the summarized variable would miss the unknown cells
         return false;
       }
       std::vector<cell_t> cells = m_offset_map.get_all_cells();
@@ -2398,8 +2455,10 @@ public:
       std::vector<cell_t> old_cells = om.get_all_cells();
       if (!old_cells.empty()) {
         kill_cells(a, old_cells, om);
-        m_array_map.set(a, next_as);
       }
+      // a fresh array: its cells are the ones written from now on
+      next_as.set_all_cells_known(true);
+      m_array_map.set(a, next_as);
     }
 
     array_store_range(a, elem_size, lb_idx, ub_idx, val);
@@ -2471,7 +2530,24 @@ public:
         // do many reads with symbolic offsets then it might be better
         // to smash the array so that each read is cheaper.
         if (crab_domain_params_man::get().array_adaptive_is_smashable()) {
-          if (array_state::can_be_smashed(cells, e_sz, true)) {
+          // The overlapping (alive) cells describe the loaded value
+          // only if the index cannot address a cell whose contents
+          // are unknown: a cell which is not in the offset map or a
+          // cell marked as removed.
+          bool may_read_unknown_cell = !as.all_cells_known();
+          if (!may_read_unknown_cell) {
+            for (cell_t c : offset_map.get_all_cells()) {
+              if (c.is_removed()) {
+                c.mark_as_removed(false);
+                if (c.symbolic_overlap(symb_lb, symb_ub, m_base_dom)) {
+                  may_read_unknown_cell = true;
+                  break;
+                }
+              }
+            }
+          }
+          if (!may_read_unknown_cell &&
+              array_state::can_be_smashed(cells, e_sz, true)) {
             // we smash all overlapping cells into a temporary array
             // (summarized) variable
             auto &vfac =
@@ -2680,6 +2756,8 @@ public:
               << "}\n";);
 
           kill_cells(a, cells, offset_map);
+          // the written cell might not be a cell of the offset map
+          next_as.set_all_cells_known(false);
         }
       }
       m_array_map.set(a, next_as);
@@ -2770,9 +2848,13 @@ public:
       std::map<variable_t, variable_t> renmap;
       CRAB_LOG("array-adaptive-array-assign", crab::outs() << "Not smashed\n";);
       std::vector<cell_t> cells = rhs_om.get_all_cells();
+      bool all_cells_known = as.all_cells_known();
       for (auto &c : cells) {
         variable_opt_t c_scalar_opt = get_scalar(rhs, c);
-        if (!c_scalar_opt) {
+        if (!c_scalar_opt || c.is_removed()) {
+          // unknown contents (the ghost variable of a cell marked as
+          // removed is dead: it must not be read)
+          all_cells_known = false;
           continue;
         }
         // Create a new cell for lhs from rhs's cell.
@@ -2783,8 +2865,8 @@ public:
       }
 
       constant_value elem_sz = as.get_element_sz();
-      m_array_map.set(
-          lhs, array_state(false, std::move(elem_sz), std::move(lhs_om)));
+      m_array_map.set(lhs, array_state(false, std::move(elem_sz),
+                                       std::move(lhs_om), all_cells_known));
 
       CRAB_LOG(
           "array-adaptive-array-assign", crab::outs() << "array variables={";
@@ -3136,6 +3218,7 @@ public:
       if (const array_state *old_as = m_array_map.find(old_v)) {
         array_state new_as;
         new_as.set_smashed(old_as->is_smashed());
+        new_as.set_all_cells_known(old_as->all_cells_known());
         constant_value &new_cp_dom = new_as.get_element_sz();
         new_cp_dom = old_as->get_element_sz();
         offset_map_t &offset_map = new_as.get_offset_map();
